@@ -106,6 +106,12 @@ pub fn run(args: &Args) -> i32 {
         ));
     }
     if prop == Prop::C05 {
+        // (d) the position cache after real searches: every cached key is the key of a position of the search tree
+        let ck = super::cachekeys::check(&sink, thorough);
+        extra.push(("cache_key_searches".to_string(), i(ck.searches)));
+        extra.push(("cache_key_tree_positions_enumerated".to_string(), i(ck.tree_positions)));
+        extra.push(("cache_keys_checked".to_string(), i(ck.keys_checked)));
+        extra.push(("cache_key_cases_skipped_over_budget".to_string(), i(ck.skipped_over_budget)));
         extra.push(("perturbed_positions".to_string(), i(st.perturbed_positions)));
         extra.push(("perturbations".to_string(), i(st.perturbations)));
     }
@@ -131,6 +137,9 @@ pub fn replay(prop: &str, doc: &J) -> i32 {
         eprintln!("MACHINERY: no replay section");
         return 2;
     };
+    if r.get("kind").and_then(|x| x.str()) == Some("cache-key") {
+        return super::cachekeys::replay(r);
+    }
     let seed = Seed {
         name: r.get("seed").and_then(|x| x.str()).unwrap_or("replay").to_string(),
         fen: r.get("fen").and_then(|x| x.str()).unwrap_or("").to_string(),
